@@ -18,6 +18,7 @@
   tolerance `1e-12 + 1e-10·ν`, by the differential harness).
 -/
 import StatsCI.Lemmas.Total
+import StatsCI.Lemmas.Wilson
 
 namespace StatsCI.C06
 open StatsCI NumOps Scalar
@@ -453,7 +454,10 @@ example : ∃ lo hi : Rex,
     (Unpaired.semF (⟨Examples.a12, Examples.a12⟩ : Unpaired Rex)).val ≠ 0 := Examples.unpaired_ok
 
 /-- the `z` of a proportion interval: `ci_wilson` asks the normal quantile for the same probability,
-    once; under the inverse hypothesis `Φ z = (1+L)/2` resp. `L` -/
+    once; under the inverse hypothesis `Φ z = (1+L)/2` resp. `L`. (`ci_wilson` clamps its bounds into
+    `[0, 1]`; in exact arithmetic both Wilson roots are proportions, so the clamp is inert and the
+    result is still the plain constructor `finish` on centre ∓ span at that `z`:
+    `Wilson.ciWilson_of_domain`.) -/
 theorem proportion_z (Φ Qz : ℝ → ℝ) (hQz : ∀ p ∈ Set.Ioo (0 : ℝ) 1, Φ (Qz p) = p)
     (crit : Crit Rex) (hcz : ∀ p : Rex, (crit (.z p)).val = Qz p.val)
     (conf : Confidence Rex) (hv : Confidence.validLevel conf.level = true) :
@@ -472,7 +476,9 @@ theorem proportion_z (Φ Qz : ℝ → ℝ) (hQz : ∀ p ∈ Set.Ioo (0 : ℝ) 1,
   refine ⟨zValue_eq crit conf hq, ?_, ?_, ?_⟩
   · rw [hcz, quantile_map]; exact hQz _ (target_mem_Ioo conf hv)
   · intro n k h1 h2 h3
-    rw [Proportion.ciWilson_of_guards crit conf h1 h2 h3, zValue_eq crit conf hq]; rfl
+    have hl : 0 < conf.level.val ∧ conf.level.val < 1 := by
+      simpa [Confidence.validLevel] using hv
+    exact Wilson.ciWilson_of_domain crit conf hl.1 hl.2 n k h2 (by omega)
   · intro n k h1 h2 h3
     rcases Proportion.ciZNormal_cases crit conf n k with ⟨h, _⟩ | ⟨_, h, _⟩ | ⟨_, _, h, _⟩ | ⟨_, _, _, h⟩
     · omega
